@@ -216,7 +216,7 @@ def run(ctx) -> None:
     from sa.report import run_prerequisite
     run_prerequisite(ctx, "C03", ("R1", "R2", "R3", "R4"), "R5", only=lambda key: not key.startswith(("v2rewrite.", "v2version.", "v2patterns.")))
     ctx.rule("R6", "prerequisite: 'strictly greater' is decided by the comparator's order laws, legacy keys included (C16/R1-R4, R8)")
-    run_prerequisite(ctx, "C16", ("R1", "R2", "R3", "R4", "R8"), "R6")
+    run_prerequisite(ctx, "C16", ("R1", "R2", "R3", "R4", "R8", "R9"), "R6")
 
     pats_node = prog.const_node("v1patterns", "PART_PATTERNS")
     pats = prog.fold(prog.module("v1patterns"), pats_node)
